@@ -42,13 +42,33 @@ theorem C01_mask_is_mod (w : Nat) (hw : 1 ≤ w) (req pct pos : Nat) :
   obtain ⟨j, hj, hc, hm, _⟩ := boundedCtor_ok hw req pct
   rw [hm, hc]; exact slot_wrap pos (by omega)
 
-/-- the storage the model assumes (`2·cap` bytes) is what is requested from the allocator, for every integer type
-    below 64 bits and, for `size_t`, for every request up to `2^62` -/
-theorem C01_storage_exact (w : Nat) (hw : 1 ≤ w) (req pct : Nat) (h : w ≤ 63 ∨ (w = 64 ∧ req ≤ 2 ^ 62)) :
-    (boundedCtor w req pct).allocBytes = 2 * (boundedCtor w req pct).capacity := by
-  rcases h with h | ⟨rfl, h⟩
-  · exact alloc_exact_narrow hw h req pct
-  · exact (alloc_exact_64_iff req pct).mpr h
+/-- **Storage.** With the repaired constructor (`_checked_capacity`, extracted flag `ctorRejectsOversized = true`) every
+    request has one of two outcomes, for every integer type: it is *accepted* and the byte count handed to the allocator is
+    exactly the `2·capacity` the model's storage has, or it is *rejected* with a `QuillError` before any storage exists. -/
+theorem C01_storage_exact (w req pct : Nat) :
+    (∃ c, boundedCtorR true w req pct = some c ∧ c = boundedCtor w req pct ∧ c.allocBytes = 2 * c.capacity) ∨
+    (boundedCtorR true w req pct = none ∧ 2 ^ 63 ≤ nextPow2W w req) := by
+  by_cases hr : ctorRejects true w req = true
+  · right
+    exact ⟨by simp only [boundedCtorR, hr, if_true], (ctorRejects_iff w req).mp hr⟩
+  · left
+    have h : boundedCtorR true w req pct = some (boundedCtor w req pct) := by simp only [boundedCtorR, hr]; rfl
+    exact ⟨_, h, rfl, accepted_alloc_exact h⟩
+
+/-- which requests are rejected: none for an integer type below 64 bits; for `size_t` exactly those above `2^62` -/
+theorem C01_rejected_iff (req pct : Nat) :
+    (boundedCtorR true 64 req pct = none ↔ 2 ^ 62 < req) ∧
+    ∀ w, 1 ≤ w → w ≤ 63 → boundedCtorR true w req pct = some (boundedCtor w req pct) := by
+  constructor
+  · rw [← ctorRejects_64_iff]
+    simp only [boundedCtorR]
+    split <;> simp_all
+  · intro w hw hw63
+    simp only [boundedCtorR, ctorRejects_narrow hw hw63 req]; rfl
+
+/-- the pinned constructor (flag `false`) never rejects -/
+theorem C01_unrepaired_never_rejects (w req pct : Nat) : boundedCtorR false w req pct = some (boundedCtor w req pct) := by
+  simp only [boundedCtorR, ctorRejects_false]; rfl
 
 /-- **Finding (F32).** `BoundedSPSCQueueImpl<size_t>` with a request above `2^62` (in particular every request
     `≥ 2^63`): capacity `2^63`, `2ull * capacity` = **0** bytes requested; every reservation up to `2^63` bytes is then
@@ -69,5 +89,13 @@ theorem C01_request_fits_iff (w : Nat) (hw : 1 ≤ w) (req pct : Nat) :
 example : (boundedCtor 8 0 5).capacity = 1 ∧ (boundedCtor 8 100 5) = ⟨128, 127, 6, 256⟩ ∧
     (boundedCtor 8 200 5).capacity = 128 ∧ (boundedCtor 16 1000 5) = ⟨1024, 1023, 51, 2048⟩ ∧
     (boundedCtor 64 (2 ^ 62 + 1) 5).allocBytes = 0 := by decide
+
+/-- the witness for the unrepaired flag stays: the pinned constructor accepts `2^62 + 1` with 0 bytes of storage, the
+    repaired one rejects it (and `SIZE_MAX`), and still accepts `2^62` (which the allocator then refuses) -/
+theorem C01_unrepaired_flag_witness :
+    (boundedCtorR false 64 (2 ^ 62 + 1) 5).map (·.allocBytes) = some 0 ∧
+    (boundedCtorR false 64 (2 ^ 62 + 1) 5).map (·.capacity) = some (2 ^ 63) ∧
+    boundedCtorR true 64 (2 ^ 62 + 1) 5 = none ∧ boundedCtorR true 64 (2 ^ 64 - 1) 5 = none ∧
+    (boundedCtorR true 64 (2 ^ 62) 5).map (·.allocBytes) = some (2 ^ 63) := by decide
 
 end MathUtil
